@@ -23,19 +23,21 @@ from ..core.framework import Ctx, b2s
 SPEC = {
     "modules": ["HC.Props.C05"],
     "extracted": ["Guards", "Consts", "H11Tables", "AppExit", "ReqGlue"],
-    "technique": "Lean 4 theorems on (a) the try/except/finally of both workers' _handle as read off the source (every way the application can end - return, exception, cancellation, exception groups - signals completion; a raise is logged once and contained), (b) the stream transducers (exit in REQUEST/HANDSHAKE => exactly a complete 500 then stream-closed; exit after the start => stream-closed with no end-of-body; a refused message starts nothing, in the model and in the statement order of the REQUEST-state branches of the source) composed with the h11 recycle rule (no EndOfMessage => our side is not DONE => Closed) and the HTTP/2 reset rule; tied by an exhaustive crash-point grid on both workers judged by independent client parsers",
-    "level_text": "Proved in Lean for every state of a request: however the application ends (returns, raises an exception or an exception group, is cancelled) the try statement of _handle on both workers - extracted from the source on every run - signals completion, logs a raise exactly once before doing so and lets no exception but a cancellation travel further; when the application finishes before a response start, the protocol layer is handed exactly a complete 500 response (content-length 0, connection: close), one access record and stream-closed; a message the stream refuses (invalid headers or status, wrong state: the exception is raised into the application) hands nothing to the protocol and leaves the stream where it was, so dying with that exception is answered 500 before the start and aborts after it - proved for the model and, as statement order (state is assigned only after the Response event was handed over), for the source's REQUEST-state branches; when the application finishes after the start but before the end, the protocol is handed stream-closed and never an end-of-body, so on HTTP/1 h11's writer is not DONE and the connection is closed instead of recycled (the response stays visibly incomplete), and on HTTP/2 the stream is reset; a WebSocket gets 500 in the handshake and close 1011 when connected.  Tie: every step index of five scripted applications (the point after completion included) x {raise, return, cancel, refused message} with every variant of each (bare / group exception; cancelled inner await / own task cancelled; every refusal hypercorn makes in the state reached) on HTTP/1.1 (with a pipelined follower), HTTP/2 (with a sibling stream that must complete) and WebSocket, both workers; verdicts by independent h11/h2 parsers; exactly one error-log record per raise; stream-level model/implementation correspondence of the exit step after each refused message.",
-    "level_note": "Trusted: Lean kernel; stream models and H11Protocol model (differential runs in C12/C06); the extractor's reading of _handle and of the REQUEST-state branches (unrecognised statements are an EXTRACT-FAIL); h11 framing decides whether an aborted body is visibly incomplete: a response whose whole declared content-length was already written, or a close-delimited HTTP/1.0 body, cannot be distinguished from a complete one by any client and is outside the statement; the HTTP/2 reset rule is the code path added by the F06 repair.",
-    "rule": "script family x crash index x kind (raise / return / cancel / refused message) x variant x protocol x worker (exhaustive grid for the canonical variant, all variants on a sweep reaching every response state); distinct = each grid cell; non-trivial = the application ends before completing its response or dies after it",
+    "technique": "Lean 4 theorems on (a) the try/except/finally of both workers' _handle as read off the source (every way the application can end - return, exception, cancellation, exception groups - signals completion; a raise is logged once and contained), (b) the stream transducers (exit in REQUEST/HANDSHAKE => exactly a complete 500 then stream-closed; exit after the start => stream-closed with no end-of-body; a refused message starts nothing, in the model and in the statement order of the REQUEST-state branches of the source) composed with the h11 recycle rule (no EndOfMessage => our side is not DONE => Closed) and the HTTP/2 reset rule, (c) the WebSocket stream transducer run over ARBITRARY interleavings of application messages (accepted or refused) and client input and then the application's end: an invariant tying the counts of response heads / ends of body / close frames handed to the protocol to self.state and wsproto's connection state, by induction over the operation list, and the statement order of the CONNECTED-state websocket.close branch read off the source (state only once the close frame exists, CLOSED before the first await after that); tied by an exhaustive crash-point grid on both workers judged by independent client parsers, a WebSocket state sweep over both carriers and a stream-level differential of the WebSocket exit step",
+    "level_text": "Proved in Lean for every state of a request: however the application ends (returns, raises an exception or an exception group, is cancelled) the try statement of _handle on both workers - extracted from the source on every run - signals completion, logs a raise exactly once before doing so and lets no exception but a cancellation travel further; when the application finishes before a response start, the protocol layer is handed exactly a complete 500 response (content-length 0, connection: close), one access record and stream-closed; a message the stream refuses (invalid headers or status, wrong state: the exception is raised into the application) hands nothing to the protocol and leaves the stream where it was, so dying with that exception is answered 500 before the start and aborts after it - proved for the model and, as statement order (state is assigned only after the Response event was handed over), for the source's REQUEST-state branches; when the application finishes after the start but before the end - mid-body, or with its whole body sent and the trailers it announced (trailers: True) still outstanding (state TRAILERS) - the protocol is handed stream-closed and never an end-of-body: proved for the model and for the source's `message is None` branch, which is read off the source on every run and evaluated state by state (httpExitActs; exit_branch_is_source: the model's completion step IS the source's in all four states; source_exit_never_completes: in RESPONSE and TRAILERS no statement that completes or continues a response), so on HTTP/1 h11's writer is not DONE and the connection is closed instead of recycled (the response stays visibly incomplete), and on HTTP/2 the stream is reset; a WebSocket gets 500 in the handshake and close 1011 when connected - proved over the WebSocket stream model for EVERY sequence of application messages, accepted or refused, of every type in every state (and any client input in between) followed by the application's end: the events handed to the protocol (the same for the HTTP/1.1 and the HTTP/2 carrier) contain at most one response head, one end of body and one close frame over the stream's whole life, and the end adds exactly the 500 (handshake unanswered), nothing but stream-closed (rejection started or complete, close frame already sent - by the application, as 1009, or as the echo of the client's close) or exactly the 1011 close frame (connected, none sent yet); a refused message of any type hands nothing over and moves nothing; in particular a websocket.close no close frame can be built from (int(code) raises, code outside 0..65535, reason not a str - by cases on the refusal, for all codes and reasons) leaves the stream CONNECTED, and the source's branch assigns CLOSED only once the frame exists and before its first await (statement order extracted on every run; repair of F63).  HTTP/1 protocol layer (H11Protocol model): a send h11 refuses puts its writer into ERROR (refused_send_poisons) and from then on NO _send_h11_event raises, whatever the event - the body an application goes on sending, a retried start, the 500 of app_send(None) when it dies (errored_send_never_raises, refused_then_nothing_raises; repair b7999be / F100): only the refusal itself reaches the application, the failure that follows cannot end the connection handler with an error.  Tie: every step index of seven scripted applications (two of them announce trailers: the crash points after the last body message and between two trailers messages are in state TRAILERS) (the point after completion included) x {raise, return, cancel, refused message} with every variant of each (bare / group exception; cancelled inner await / own task cancelled; every refusal hypercorn makes in the state reached) on HTTP/1.1 (with a pipelined follower), HTTP/2 (with a sibling stream that must complete) and WebSocket, both workers; verdicts by independent h11/h2 parsers; exactly one error-log record per raise; a message the PROTOCOL layer refuses (h11: status 101 without an upgrade proposal, status outside its ranges, body beyond / end short of the declared content-length, the end of a response that only has an interim head; h2: a te response header) x what the application does next (dies, gives up, goes on sending, goes on and dies, retries with a valid start, retries and dies) x both workers: the handler never ends with an exception, a dying application is logged once, a complete response at the client is the 500 or exactly what the accepted messages describe, everything else ends closed / reset with the sibling unharmed; stream-level model/implementation correspondence of the exit step after each refused message (HTTP and WebSocket streams); WebSocket state sweep: every state of the stream (handshake, rejection announced / head refused, connected, connected after a survived refusal, rejection started, rejection complete, denied 403, closed) x {raise, return, every message the stream refuses there} x {HTTP/1.1 upgrade, HTTP/2 extended CONNECT} x both workers, judged by an independent wsproto / h11 / h2 client.",
+    "level_note": "Trusted: Lean kernel; stream models and H11Protocol model (differential runs in C12/C06); the extractor's reading of _handle and of the REQUEST-state branches (unrecognised statements are an EXTRACT-FAIL); h11 framing decides whether an aborted body is visibly incomplete: a response whose whole declared content-length was already written, or a close-delimited HTTP/1.0 body, cannot be distinguished from a complete one by any client and is outside the statement; the HTTP/2 reset rule is the code path added by the F06 repair; the WebSocket model's close message carries the RESULT of int(code) (value or raised class - the language's own conversion, computed by the harness) and wsproto's refusals while serialising a close frame (code outside 0..65535, reason without encode) are modelled (Ws.closeFrame) and tied by the differential runs of C05 and C12; on HTTP/2 the stream-level theorems speak about the events handed to H2Protocol - what H2Protocol does with StreamClosed for a WebSocket stream is the known finding F110.",
+    "rule": "script family x crash index x kind (raise / return / cancel / refused message) x variant x protocol x worker (exhaustive grid for the canonical variant, all variants on a sweep reaching every response state: REQUEST / RESPONSE / TRAILERS / CLOSED); protocol-refused message x continuation x protocol x worker (exhaustive); WebSocket: stream state x end (raise / return / each refused message of the state) x carrier x worker, exhaustive; distinct = each grid cell; non-trivial = the application ends before completing its response or dies after it",
     "trusted": ["h11 / h2 client parsers as the client's verdict"],
     "partial": [],
     "assumptions": ["'logged' is required for raising applications (their own exception or one the server raised into them) only: a silent early return and a cancellation are not errors",
                     "trio: a cancellation that reaches application code without the connection being torn down is one absorbed by a cancel scope of the application (trio never lets Cancelled leave the scope that owns it); the server then sees the application return",
-                    "whether a response had been started is read off the messages the server accepted from the application; a refused message starts nothing"],
+                    "whether a response had been started is read off the messages the server accepted from the application; a refused message starts nothing",
+                    "after a refusal inside h11's state machine (our_state ERROR) h11 can write nothing more: a dying application then gets the connection closed without a 500 (a refusal that leaves the connection usable - status outside h11's ranges - still owes the 500)"],
 }
 
 START = {"type": "http.response.start", "status": 200, "headers": [(b"x-a", b"1")]}
 START_CL = {"type": "http.response.start", "status": 200, "headers": [(b"content-length", b"6")]}
+START_T = {"type": "http.response.start", "status": 200, "headers": [(b"x-a", b"1")], "trailers": True}
 FAMILIES = {
     "read_then_respond": [["recv_body"], ["send", START], ["send", {"type": "http.response.body", "body": b"abc", "more_body": True}],
                           ["send", {"type": "http.response.body", "body": b"def"}]],
@@ -47,7 +49,22 @@ FAMILIES = {
                        ["send", {"type": "http.response.body", "body": b"abc"}]],
     "stream_three": [["send", START], ["send", {"type": "http.response.body", "body": b"1", "more_body": True}], ["sleep", 0.1],
                      ["send", {"type": "http.response.body", "body": b"2", "more_body": True}], ["send", {"type": "http.response.body", "body": b"3"}]],
+    # trailers announced (`trailers: True`): after the LAST body message the response is still open (state TRAILERS) until the
+    # final http.response.trailers - an application that ends there has not completed its response, on any protocol
+    "announce_trailers": [["recv_body"], ["send", START_T], ["send", {"type": "http.response.body", "body": b"abc", "more_body": True}],
+                          ["send", {"type": "http.response.body", "body": b"def"}]],
+    "send_trailers": [["send", START_T], ["send", {"type": "http.response.body", "body": b"abc"}],
+                      ["send", {"type": "http.response.trailers", "headers": [(b"x-t", b"1")], "more_trailers": True}],
+                      ["send", {"type": "http.response.trailers", "headers": [(b"x-u", b"2")]}]],
 }
+# families whose script is valid on some protocols only (http.response.trailers is an HTTP/2+ message); the HTTP/2 client
+# of a trailers family sends `te: trailers`
+FAMILY_PROTOS = {"send_trailers": ("2",)}
+TRAILER_FAMILIES = ("announce_trailers", "send_trailers")
+
+
+def protos_of(fam: str) -> tuple:
+    return ("ws",) if fam == "ws" else FAMILY_PROTOS.get(fam, ("1.1", "2"))
 # HTTP/2 upload that is still in flight when the application ends: one connection window (65535) in all
 UPLOAD = bytes(range(256)) * 255 + bytes(255)
 UPLOAD_FIRST = 1000
@@ -74,6 +91,12 @@ INVALID = {
         "second_start": {"type": "http.response.start", "status": 200, "headers": []},
         "unknown_type": {"type": "http.response.bogus"},
     },
+    "TRAILERS": {
+        "body_after_last": {"type": "http.response.body", "body": b"late"},
+        "trailers_ctl_in_value": {"type": "http.response.trailers", "headers": [(b"x-t", b"a\r\nx-b: 1")]},
+        "second_start": {"type": "http.response.start", "status": 200, "headers": []},
+        "unknown_type": {"type": "http.response.bogus"},
+    },
     "CLOSED": {
         "body_after_end": {"type": "http.response.body", "body": b"late"},
         "start_after_end": {"type": "http.response.start", "status": 200, "headers": []},
@@ -91,10 +114,90 @@ WS_INVALID = {
         "send_bytes_not_bytes": {"type": "websocket.send", "bytes": "abc"},
         "close_bad_code": {"type": "websocket.close", "code": "abc"},
         "close_bad_reason": {"type": "websocket.close", "code": 1000, "reason": 5},
+        "close_none_code": {"type": "websocket.close", "code": None},
+        "close_big_code": {"type": "websocket.close", "code": 70000},
+        "close_bytes_reason": {"type": "websocket.close", "code": 1000, "reason": b"bye"},
         "unknown_type": {"type": "websocket.bogus"},
     },
 }
+
+# ---- WebSocket state sweep (both carriers): how the scripted application reaches every state of the stream, and every
+#      message the stream refuses there (the C12 alphabet: every message type, and every payload refusal of the types the state
+#      accepts).  Ends: raise / return / die with the exception of a refused message.
+_RSTART = {"type": "websocket.http.response.start", "status": 403, "headers": [(b"x-a", b"1")]}
+_RSTART_CL = {"type": "websocket.http.response.start", "status": 403, "headers": [(b"content-length", b"2")]}
+_RSTART_BAD = {"type": "websocket.http.response.start", "status": 403, "headers": [(b"x-a", b"1\r\nx-b: 2")]}
+_ACCEPT = {"type": "websocket.accept"}
+_TEXT = {"type": "websocket.send", "text": "hello"}
+WS_REACH: Dict[str, List[list]] = {
+    "HANDSHAKE": [],
+    "HANDSHAKE+start": [["send", _RSTART]],                       # a rejection announced, nothing sent yet
+    "HANDSHAKE+badstart": [["send", _RSTART_BAD]],                # its head will be refused when the body arrives
+    "CONNECTED": [["send", _ACCEPT]],
+    "CONNECTED+caught": [["send", _ACCEPT], ["send", {"type": "websocket.close", "code": "abc"}, "refused"], ["send", _TEXT]],   # a refusal the application survived
+    "RESPONSE": [["send", _RSTART], ["send", {"type": "websocket.http.response.body", "body": b"no", "more_body": True}]],
+    "REJECTED": [["send", _RSTART_CL], ["send", {"type": "websocket.http.response.body", "body": b"no"}]],
+    "DENIED": [["send", {"type": "websocket.close"}]],
+    "CLOSED": [["send", _ACCEPT], ["send", {"type": "websocket.close", "code": 3000}]],
+}
+_ANY = {
+    "accept": _ACCEPT, "send": _TEXT, "close": {"type": "websocket.close"}, "rstart": _RSTART,
+    "rbody": {"type": "websocket.http.response.body", "body": b"x"}, "unknown_type": {"type": "websocket.bogus"},
+    "http_type": {"type": "http.response.start", "status": 200, "headers": []},
+}
+_CONNECTED_REFUSED = {**WS_INVALID["CONNECTED"], "send_no_payload": {"type": "websocket.send"},
+                      "close_negative_code": {"type": "websocket.close", "code": -1},
+                      "rstart_after_accept": _RSTART, "rbody_after_accept": _ANY["rbody"], "http_type": _ANY["http_type"]}
+WS_SWEEP_INVALID: Dict[str, Dict[str, dict]] = {
+    "HANDSHAKE": {**WS_INVALID["HANDSHAKE"], "accept_bad_subprotocol": {"type": "websocket.accept", "subprotocol": "nope"},
+                  "accept_ctl_header": {"type": "websocket.accept", "headers": [(b"x-a", b"1\r\nx-b: 2")]},
+                  "body_without_start": _ANY["rbody"], "http_type": _ANY["http_type"]},
+    "HANDSHAKE+start": {"body_str": {"type": "websocket.http.response.body", "body": "text"}, "accept_bad_subprotocol": {"type": "websocket.accept", "subprotocol": "nope"}},
+    "HANDSHAKE+badstart": {"body_bad_head": {"type": "websocket.http.response.body", "body": b"no"}},
+    "CONNECTED": _CONNECTED_REFUSED,
+    "CONNECTED+caught": {k: _CONNECTED_REFUSED[k] for k in ("close_bad_code", "close_big_code", "close_bad_reason", "send_text_not_str", "unknown_type")},
+    "RESPONSE": {"body_str": {"type": "websocket.http.response.body", "body": "text"}, **{k: _ANY[k] for k in ("accept", "send", "close", "rstart", "unknown_type")}},
+    "REJECTED": dict(_ANY),
+    "DENIED": dict(_ANY),
+    "CLOSED": dict(_ANY),
+}
+# the state `self.state` is in once the reach script has been accepted
+WS_REACH_STATE = {"HANDSHAKE": "HANDSHAKE", "HANDSHAKE+start": "HANDSHAKE", "HANDSHAKE+badstart": "HANDSHAKE", "CONNECTED": "CONNECTED",
+                  "CONNECTED+caught": "CONNECTED", "RESPONSE": "RESPONSE", "REJECTED": "HTTPCLOSED", "DENIED": "HTTPCLOSED", "CLOSED": "CLOSED"}
 KINDS = ("raise", "return", "cancel", "invalid")
+
+# Messages the stream accepts and the PROTOCOL layer (the h11 / h2 library underneath) refuses, by the protocols on which
+# that happens.  `poisons`: the refusal happens inside the library's connection state machine, which can send nothing
+# afterwards (h11: our_state ERROR) - no 500 can follow, the connection can only be closed.
+_B = lambda data, more=False: {"type": "http.response.body", "body": data, "more_body": more}          # noqa: E731
+_S = lambda status, hs=None: {"type": "http.response.start", "status": status, "headers": [(b"x-a", b"1")] if hs is None else hs}   # noqa: E731
+PROTO_REFUSED: Dict[str, dict] = {
+    # 101 on a request that proposed no upgrade: h11 refuses the switch event inside its state machine
+    "start_101_no_upgrade": {"protos": ("1.1",), "prefix": [["recv_body"]], "msg": _S(101), "poisons": True},
+    # outside h11's status ranges: refused when the event is built, the connection is untouched
+    "start_status_99": {"protos": ("1.1",), "prefix": [["recv_body"]], "msg": _S(99), "poisons": False},
+    "start_status_1000": {"protos": ("1.1",), "prefix": [["recv_body"]], "msg": _S(1000), "poisons": False},
+    # more body than the declared content-length / the end short of it / the end of a response that only has an interim head
+    "body_exceeds_content_length": {"protos": ("1.1",), "prefix": [["recv_body"], ["send", START_CL]], "msg": _B(b"x" * 7, True), "poisons": True},
+    "end_short_of_content_length": {"protos": ("1.1",), "prefix": [["recv_body"], ["send", START_CL]], "msg": _B(b"abc"), "poisons": True},
+    "end_after_interim_start": {"protos": ("1.1",), "prefix": [["recv_body"], ["send", _S(102)]], "msg": _B(b""), "poisons": True},
+    # h2 refuses a `te` response header other than `trailers` (outbound header validation); H2Protocol swallows the refusal
+    "start_te_gzip": {"protos": ("2",), "prefix": [["recv_body"]], "msg": _S(200, [(b"te", b"gzip")]), "poisons": False},
+}
+# what the application does with the refusal
+REFUSED_THEN = {
+    "dies": lambda bad: [["send!", bad], ["raise"]],                       # does not catch it (or, when the refusal was silent, fails next)
+    "returns": lambda bad: [["send", bad], ["return"]],                    # catches it and gives up
+    "goes_on": lambda bad: [["send", bad], ["send", _B(b"zz", True)], ["send", _B(b"z")]],
+    "goes_on_dies": lambda bad: [["send", bad], ["send", _B(b"zz", True)], ["raise"]],
+    "retries": lambda bad: [["send", bad], ["send", START], ["send", _B(b"ok")]],          # a valid start after the refused one
+    "retries_dies": lambda bad: [["send", bad], ["send!", START], ["raise"]],
+}
+
+
+def refusal_grid() -> List[dict]:
+    return [{"family": "proto_refused", "kind": "proto_refused", "msg": name, "then": then, "proto": proto, "worker": worker}
+            for name, ent in PROTO_REFUSED.items() for then in REFUSED_THEN for proto in ent["protos"] for worker in ("asyncio", "trio")]
 
 
 def steps_of(case: dict) -> List[list]:
@@ -105,18 +208,21 @@ def scripted_state(case: dict) -> str:
     """state the response is in at the crash point if every scripted message before it is accepted"""
     if case["family"] == "ws":
         return "CONNECTED" if case["crash_at"] >= 2 else "HANDSHAKE"
-    st = "REQUEST"
-    for s_ in FAMILIES[case["family"]][: case["crash_at"]]:
-        if s_[0] == "send":
-            st = _advance(st, s_[1])
-    return st
+    return _fold([s_[1] for s_ in FAMILIES[case["family"]][: case["crash_at"]] if s_[0] == "send"])
 
 
-def _advance(st: str, m: dict) -> str:
-    if m["type"] == "http.response.start" and st == "REQUEST":
-        return "RESPONSE"
-    if m["type"] == "http.response.body" and st == "RESPONSE" and not m.get("more_body", False):
-        return "CLOSED"
+def _fold(msgs: List[dict]) -> str:
+    """state of the response after the application's ACCEPTED messages `msgs` (ASGI: the start opens the response, the
+    last body message completes it - unless trailers were announced, then the last trailers message does)"""
+    st, announced = "REQUEST", False
+    for m in msgs:
+        t = m["type"]
+        if t == "http.response.start" and st == "REQUEST":
+            st, announced = "RESPONSE", bool(m.get("trailers", False))
+        elif t == "http.response.body" and st == "RESPONSE" and not m.get("more_body", False):
+            st = "TRAILERS" if announced else "CLOSED"
+        elif t == "http.response.trailers" and st == "TRAILERS" and not m.get("more_trailers", False):
+            st = "CLOSED"
     return st
 
 
@@ -140,7 +246,7 @@ def grid(full: bool = False) -> List[dict]:
     for fam, steps in list(FAMILIES.items()) + [("ws", WS_FAMILY)]:
         for idx in range(len(steps) + 1):
             for kind in KINDS:
-                for proto in (("ws",) if fam == "ws" else ("1.1", "2")):
+                for proto in protos_of(fam):
                     for worker in ("asyncio", "trio"):
                         c = {"family": fam, "crash_at": idx, "kind": kind, "proto": proto, "worker": worker}
                         v = variants(c)[0]
@@ -158,11 +264,11 @@ def grid(full: bool = False) -> List[dict]:
                         c["variant"] = v
                     cases.append(c)
     sweep = [(fam, range(len(steps) + 1)) for fam, steps in list(FAMILIES.items()) + [("ws", WS_FAMILY)]] if full else \
-        [("read_then_respond", (1, 2, 4)), ("ws", (1, 3))]
+        [("read_then_respond", (1, 2, 4)), ("announce_trailers", (4,)), ("ws", (1, 3))]
     for fam, idxs in sweep:
         for idx in idxs:
             for kind in KINDS:
-                for proto in (("ws",) if fam == "ws" else ("1.1", "2")):
+                for proto in protos_of(fam):
                     for worker in ("asyncio", "trio"):
                         c = {"family": fam, "crash_at": idx, "kind": kind, "proto": proto, "worker": worker}
                         for v in variants(c)[1:]:
@@ -171,6 +277,9 @@ def grid(full: bool = False) -> List[dict]:
 
 
 def script_for(case: dict) -> List[list]:
+    if case["kind"] == "proto_refused":
+        ent = PROTO_REFUSED[case["msg"]]
+        return [list(s_) for s_ in ent["prefix"]] + REFUSED_THEN[case["then"]](ent["msg"])
     steps = steps_of(case)
     kind, v = case["kind"], case.get("variant")
     if kind == "raise":
@@ -192,14 +301,16 @@ def accepted_state(case: dict, app_sends: List[list]) -> Optional[str]:
     msgs = [s_[1] for s_ in script_for(case) if s_[0] in ("send", "send!")]
     valid = sum(1 for s_ in steps_of(case)[: case["crash_at"]] if s_[0] == "send")
     ws = case["family"] == "ws"
-    st = "HANDSHAKE" if ws else "REQUEST"
+    st = "HANDSHAKE"
+    accepted: List[dict] = []
     for k, m in enumerate(msgs[: len(app_sends)]):
         ok = app_sends[k][2] == "ok"
         if not ok and k < valid:
             return None
         if ok:
-            st = ("CONNECTED" if m["type"] == "websocket.accept" and st == "HANDSHAKE" else st) if ws else _advance(st, m)
-    return st
+            accepted.append(m)
+            st = "CONNECTED" if m["type"] == "websocket.accept" and st == "HANDSHAKE" else st
+    return st if ws else _fold(accepted)
 
 
 def sent_body_len(case: dict) -> int:
@@ -224,7 +335,8 @@ def run_case(case: dict) -> dict:
         # Afterwards a sibling stream uploads a body of its own: it needs connection window the failed stream used.
         async def client(io):
             c = C.H2Client()
-            s1 = c.request(C.h2_headers("POST", "/crash"), UPLOAD[:UPLOAD_FIRST], end=False)
+            s1 = c.request(C.h2_headers("POST", "/crash", extra=[(b"te", b"trailers")] if case["family"] in TRAILER_FAMILIES else None),
+                           UPLOAD[:UPLOAD_FIRST], end=False)
             await io.send(c.out())
             await io.sleep(0.5)
             c.send_data(s1, UPLOAD[UPLOAD_FIRST:], True)
@@ -241,7 +353,7 @@ def run_case(case: dict) -> dict:
     elif case["proto"] == "2":
         async def client(io):
             c = C.H2Client()
-            s1 = c.request(C.h2_headers("POST", "/crash"), b"body")
+            s1 = c.request(C.h2_headers("POST", "/crash", extra=[(b"te", b"trailers")] if case["family"] in TRAILER_FAMILIES else None), b"body")
             await c.pump(io)
             s3 = c.request(C.h2_headers("GET", "/sibling"))
             await c.pump(io)
@@ -323,6 +435,9 @@ def check(ctx: Ctx, cases: List[dict]) -> None:
             continue
         st = accepted_state(case, app["send"])
         ctx.count("state_at_exit", str(st))
+        ctx.count("state_at_exit." + case["proto"], str(st))
+        if st == "TRAILERS":
+            sig["state"] = "TRAILERS"
         if st is None:
             ctx.violation("valid_message_refused", case, {"sends": app["send"]}, sig)
             continue
@@ -352,7 +467,8 @@ def check(ctx: Ctx, cases: List[dict]) -> None:
                 ok = r0 is not None and r0["status"] == 500 and r0["complete"] and v["closed"] and any(n == "connection" and "close" in val for n, val in r0["headers"])
                 if not ok:
                     ctx.violation("crash_before_start_500", case, v, sig)
-            elif st == "RESPONSE":
+            elif st in ("RESPONSE", "TRAILERS"):
+                # TRAILERS: the whole body went out, the announced trailers did not: the response is as unfinished as mid-body
                 declared = case["family"] == "declared_length"
                 fully_sent = declared and sent_body_len(case) >= 6
                 if r0 is None or r0["status"] != 200:
@@ -384,7 +500,7 @@ def check(ctx: Ctx, cases: List[dict]) -> None:
             if st == "REQUEST":
                 if not (status == 500 and c.get("ended")):
                     ctx.violation("crash_before_start_500", case, c, sig)
-            elif st == "RESPONSE":
+            elif st in ("RESPONSE", "TRAILERS"):
                 if c.get("ended"):
                     ctx.violation("falsely_complete", case, c, {**sig, "framing": "h2"})
                 elif c.get("reset") is None:
@@ -392,6 +508,279 @@ def check(ctx: Ctx, cases: List[dict]) -> None:
             else:
                 if not (status == 200 and c.get("ended") and c.get("data") == full):
                     ctx.violation("completed_response_damaged", case, c, sig)
+                elif case["family"] == "send_trailers" and [list(x) for x in (c.get("trailers") or [])] != [["x-t", "1"], ["x-u", "2"]]:
+                    ctx.violation("completed_response_damaged", case, c, {**sig, "part": "trailers"})
+
+
+def check_refused(ctx: Ctx, cases: List[dict]) -> None:
+    """A message the protocol layer refuses, then the application dies / gives up / goes on sending / retries with a valid
+    start.  Judged from what the server ACCEPTED (send calls that returned): the handler never ends with an exception, a
+    dying application is logged once, whatever the client parses as a complete response is either the 500 (nothing
+    accepted) or exactly the response the accepted messages describe; everything else ends with the connection closed
+    (HTTP/1) / the stream reset (HTTP/2) and leaves the sibling stream / the rest of the connection alone."""
+    for case in cases:
+        o = run_case(case)
+        ent = PROTO_REFUSED[case["msg"]]
+        ctx.evaluations += 1
+        ctx.count("proto", case["proto"])
+        ctx.count("kind", "proto_refused/" + case["then"])
+        ctx.count("protocol_refused_message", case["proto"] + ":" + case["msg"])
+        ctx.distinct(["proto_refused", case["msg"], case["then"], case["proto"], case["worker"]])
+        ctx.sample(case, cap=3)
+        sig = {"proto": case["proto"], "kind": "proto_refused", "msg": case["msg"], "then": case["then"]}
+        v = o["view"]
+        if o["stuck"]:
+            ctx.violation("session_hangs", case, {"note": "the server session did not finish within the harness timeout"}, sig)
+            continue
+        if o["error"] or o["loop_errors"]:
+            ctx.violation("handler_exception", case, {"error": o["error"], "loop": o["loop_errors"]}, {**sig, "clause2": "internal"})
+            continue
+        app = o["crash_app"]
+        if app is None or app["exit"] is None:
+            ctx.violation("application_not_started" if app is None else "crash_point_not_reached", case, v, sig)
+            continue
+        msgs = [s_[1] for s_ in script_for(case) if s_[0] in ("send", "send!")]
+        accepted = [msgs[k] for k, e in enumerate(app["send"][: len(msgs)]) if e[2] == "ok"]
+        st = _fold(accepted)
+        died = app["exit"] != "ok"
+        ctx.count("refused.state_at_exit", f"{st}/{'died' if died else 'returned'}")
+        ctx.count("refused.seen_by_application", "raised" if any(e[2] != "ok" for e in app["send"]) else "silent")
+        if o["exceptions"] != (1 if died else 0):
+            ctx.violation("logged_once" if died else "spurious_error_log", case, {"exceptions": o["exceptions"], "exit": app["exit"]}, sig)
+        start = next((m for m in accepted if m["type"] == "http.response.start"), None)
+        body = b"".join(m.get("body", b"") for m in accepted if m["type"] == "http.response.body").decode()
+        if case["proto"] == "1.1":
+            rs = v["responses"]
+            r0 = rs[0] if rs else None
+            is500 = r0 is not None and r0["complete"] and r0["status"] == 500 and st == "REQUEST"
+            delivered = r0 is not None and r0["complete"] and st == "CLOSED" and start is not None and r0["status"] == start["status"] and r0["body"] == body
+            if r0 is not None and r0["complete"] and not (is500 or delivered):
+                ctx.violation("falsely_complete", case, v, sig)
+            if st == "REQUEST" and not ent["poisons"] and not is500:
+                # the refusal left the connection usable: nothing was started, so the client is owed the 500
+                ctx.violation("crash_before_start_500", case, v, sig)
+            if delivered:
+                r1 = rs[1] if len(rs) > 1 else None
+                if r1 is None or r1["status"] != 200 or not r1["complete"] or r1["body"] != "sibling":
+                    ctx.violation("follower_not_served", case, v, sig)
+            else:
+                if not v["closed"]:
+                    ctx.violation("not_terminated", case, v, sig)
+                if len(rs) > 1:
+                    ctx.violation("served_after_abort", case, v, sig)
+        else:
+            c, sib = v["crash"], v["sibling"]
+            if v["error"] or v["goaway"] is not None:
+                ctx.violation("connection_level_failure", case, {"error": v["error"], "goaway": v["goaway"], "crash": c}, sig)
+                continue
+            if not (sib.get("headers") and sib.get("ended") and sib.get("data") == "sibling"):
+                ctx.violation("sibling_affected", case, {"sibling": sib}, sig)
+            raw = dict(c["headers"]).get(":status") if c.get("headers") else None
+            status = int(raw) if isinstance(raw, str) and raw.isdigit() else None
+            is500 = bool(c.get("ended")) and status == 500 and st == "REQUEST"
+            delivered = bool(c.get("ended")) and st == "CLOSED" and start is not None and status == start["status"] and c.get("data") == body
+            if c.get("ended") and not (is500 or delivered):
+                ctx.violation("falsely_complete", case, c, {**sig, "framing": "h2"})
+            if st == "REQUEST" and not is500:
+                ctx.violation("crash_before_start_500", case, c, sig)
+            if not c.get("ended") and c.get("reset") is None:
+                ctx.violation("h2_stream_not_reset", case, c, sig)
+
+
+# ------------------------------------------------------------------------------------------------------------
+# WebSocket state sweep: every state of the stream x {raise, return, every message refused there} x both carriers x both workers
+# ------------------------------------------------------------------------------------------------------------
+def ws_sweep_grid(full: bool = False) -> List[dict]:
+    cases = []
+    for state in WS_REACH:
+        ends = [("raise", None), ("return", None)] + [("invalid", name) for name in WS_SWEEP_INVALID[state]]
+        for kind, variant in ends:
+            for carrier in ("h1", "h2"):
+                for worker in ("asyncio", "trio"):
+                    c = {"family": "ws_sweep", "state": state, "kind": kind, "carrier": carrier, "worker": worker}
+                    if variant is not None:
+                        c["variant"] = variant
+                    cases.append(c)
+    return cases
+
+
+def ws_sweep_script(case: dict) -> List[list]:
+    reach = [[st[0], st[1]] for st in WS_REACH[case["state"]]]
+    if case["kind"] == "raise":
+        end = [["raise"]]
+    elif case["kind"] == "return":
+        end = [["return"]]
+    else:
+        end = [["send!", WS_SWEEP_INVALID[case["state"]][case["variant"]]], ["return"]]
+    return [["recv"]] + reach + end
+
+
+def _ws_ref_state(msgs: List[dict], results: List[str]) -> str:
+    """`self.state` as the messages the server ACCEPTED determine it (independent of the model)"""
+    st = "HANDSHAKE"
+    for m, r in zip(msgs, results):
+        if r != "ok":
+            continue
+        t = m["type"]
+        if t == "websocket.accept" and st == "HANDSHAKE":
+            st = "CONNECTED"
+        elif t == "websocket.close" and st == "HANDSHAKE":
+            st = "HTTPCLOSED"
+        elif t == "websocket.close" and st == "CONNECTED":
+            st = "CLOSED"
+        elif t == "websocket.http.response.body" and st in ("HANDSHAKE", "RESPONSE"):
+            st = "RESPONSE" if m.get("more_body", False) else "HTTPCLOSED"
+    return st
+
+
+def check_ws_sweep(ctx: Ctx, cases: List[dict]) -> None:
+    from ..core import wsrun
+    for case in cases:
+        script = ws_sweep_script(case)
+        o = wsrun.run_session({"worker": case["worker"], "carrier": case["carrier"], "app": script, "client": [], "linger": 2.0})
+        ctx.evaluations += 1
+        end = case["kind"] + (":" + case["variant"] if case.get("variant") else "")
+        ctx.count("ws_sweep.state_x_end", case["state"] + " / " + end)
+        ctx.count("ws_sweep.carrier_worker", case["carrier"] + "/" + case["worker"])
+        ctx.count("proto", "ws-" + case["carrier"])
+        ctx.count("kind", case["kind"])
+        ctx.distinct(["ws_sweep", case["state"], case["kind"], case.get("variant"), case["carrier"], case["worker"]])
+        ctx.sample(case, cap=3)
+        sends = [s_ for s_ in script if s_[0] in ("send", "send!")]
+        msgs = [s_[1] for s_ in sends]
+        sig = {"proto": "ws", "carrier": case["carrier"], "kind": case["kind"], "sweep_state": case["state"]}
+        if case["kind"] == "invalid":
+            sig["refused"] = msgs[-1]["type"]
+        if o["stuck_session"]:
+            ctx.violation("session_hangs", case, {"note": "the server session did not finish within the harness timeout"}, sig)
+            continue
+        if o["error"] or o["loop_errors"]:
+            ctx.violation("handler_exception", case, {"error": o["error"], "loop": o["loop_errors"]}, {**sig, "clause2": "internal"})
+            continue
+        if not o["apps"]:
+            ctx.violation("application_not_started", case, o["client"], sig)
+            continue
+        app = o["apps"][0]
+        if app["exit"] is None:
+            ctx.violation("crash_point_not_reached", case, {"sends": app["send"]}, sig)
+            continue
+        results = [x[1] for x in app["send"]]
+        want = ["refused" if len(st) > 2 else "ok" for st in WS_REACH[case["state"]]]
+        got_reach = ["ok" if r == "ok" else "refused" for r in results[: len(want)]]
+        if len(results) < len(sends) or got_reach != want:
+            ctx.violation("valid_message_refused", case, {"sends": app["send"]}, sig)
+            continue
+        if case["kind"] == "invalid" and results[-1] == "ok":
+            ctx.violation("invalid_message_accepted", case, {"sends": app["send"]}, sig)
+            continue
+        st = _ws_ref_state(msgs, results)
+        ctx.count("ws_sweep.state_at_exit", st)
+        if st != WS_REACH_STATE[case["state"]]:
+            # a refused message moved the state, or an accepted one did not
+            ctx.violation("refused_message_changed_state", case, {"state_by_accepted_messages": st, "sends": app["send"]}, sig)
+        want_logs = 1 if case["kind"] in ("raise", "invalid") else 0
+        if want_logs == 1 and len(o["exceptions"]) != 1:
+            ctx.violation("logged_once", case, {"exceptions": len(o["exceptions"]), "exit": app["exit"]}, sig)
+        if want_logs == 0 and len(o["exceptions"]) != 0:
+            ctx.violation("spurious_error_log", case, {"exceptions": len(o["exceptions"]), "exit": app["exit"]}, sig)
+        c = o["client"]
+        hs = c["handshake"] or {}
+        view = {"handshake": hs, "close_code": c["close_code"], "closes": c["closes"], "messages": c["messages"], "client_error": c["error"],
+                "closed": o["closed_at"] is not None, "h2_stream": o.get("h2_stream"), "h2_error": o["h2_error"]}
+        h2 = case["carrier"] == "h2"
+        terminated = (o.get("h2_stream") or {}).get("ended") or (o.get("h2_stream") or {}).get("reset") is not None if h2 else o["closed_at"] is not None
+        if c["closes"] > 1:
+            ctx.violation("second_close_frame", case, view, sig)
+        if st == "HANDSHAKE":
+            # nothing answered yet: exactly a complete 500
+            if not (hs.get("status") == 500 and hs.get("complete")) or c["closes"]:
+                ctx.violation("ws_crash_handshake_500", case, view, sig)
+        elif st == "RESPONSE":
+            # a rejection was started and not finished: never complete, promptly terminated
+            if hs.get("status") != 403:
+                ctx.violation("response_lost", case, view, sig)
+            elif hs.get("complete"):
+                ctx.violation("falsely_complete", case, view, sig)
+        elif st == "HTTPCLOSED":
+            body = "no" if case["state"] == "REJECTED" else ""
+            if not (hs.get("status") == 403 and hs.get("complete") and hs.get("body") == body) or c["closes"]:
+                ctx.violation("completed_response_damaged", case, view, sig)
+        elif st == "CONNECTED":
+            if not (hs.get("status") in (101, 200) and c["close_code"] == 1011 and c["closes"] == 1):
+                ctx.violation("ws_crash_connected_1011", case, view, sig)
+            if case["state"] == "CONNECTED+caught" and c["messages"] != [["text", "hello"]]:
+                ctx.violation("message_lost_after_refusal", case, view, sig)
+        elif st == "CLOSED":
+            if not (c["close_code"] == 3000 and c["closes"] == 1):
+                ctx.violation("completed_close_damaged", case, view, sig)
+        if not terminated:
+            if h2:
+                # the HTTP/2 stream that carried the WebSocket is neither ended nor reset
+                ctx.violation("ws_h2_stream_left_open", case, view, sig)
+            else:
+                ctx.violation("not_terminated", case, view, sig)
+        if h2 and (o["h2_error"] or o["h2_goaway"] not in (None,) and (o["h2_goaway"] or {}).get("error_code")):
+            ctx.violation("connection_level_failure", case, {"error": o["h2_error"], "goaway": o["h2_goaway"]}, sig)
+
+
+WS_STREAM_HEADERS = [(b"host", b"x"), (b"upgrade", b"websocket"), (b"connection", b"upgrade"), (b"sec-websocket-key", b"dGhlIHNhbXBsZSBub25jZQ=="),
+                     (b"sec-websocket-version", b"13")]
+
+
+def ws_stream_sessions() -> List[tuple]:
+    """stream-level sessions on the real WSStream for the model correspondence (`stream.ws`): every state x {exit at once,
+    every message refused there then exit, a refused message survived then every message refused there then exit}, as the
+    HTTP/1.1 and as the HTTP/2 carrier announce themselves to the stream"""
+    out = []
+    for state, reach in WS_REACH.items():
+        msgs = [st[1] for st in reach]
+        ends: List[tuple] = [("exit", [])]
+        for name, bad in WS_SWEEP_INVALID[state].items():
+            if name == "accept_str_headers":      # the model's accept headers are bytes pairs (end-to-end sweep only)
+                continue
+            ends.append((name, [bad]))
+            # the application catches the first refusal and is refused again: nothing accumulates
+            ends.append((name + "+again", [bad, bad]))
+        for version in ("1.1", "2"):
+            hs = [h for h in WS_STREAM_HEADERS if version == "1.1" or h[0] not in (b"upgrade", b"connection", b"sec-websocket-key")]
+            for name, tail in ends:
+                out.append((state, version, name, {"version": version, "headers": hs}, msgs + tail))
+    return out
+
+
+def check_ws_stream_level(ctx: Ctx) -> None:
+    import asyncio
+    reqs, metas = [], []
+    for state, version, name, init, msgs in ws_stream_sessions():
+        ops = [{"send": dict(m)} for m in msgs] + [{"send": None}]
+        obs, lib = asyncio.run(S.drive_ws(init, ops))
+        reqs.append(S.ws_model_req(init, ops, lib))
+        metas.append((state, version, name, obs))
+        ctx.count("ws_stream_level.state_x_end", state + " / " + name.split("+")[0])
+        ctx.count("ws_stream_level.version", version)
+        # the property on the implementation's own observations: whatever was refused before, the exit step hands the protocol
+        # exactly what the state demands, and over the whole life at most one head / one close frame
+        evs = [e for o_ in obs[1:] for e in o_["events"]]
+        heads = sum(1 for e in evs if e[0] == "response")
+        closes = sum(1 for e in evs if e[0] == "data" and e[1][0] == "close")
+        exit_evs = obs[-1]["events"]
+        st_before = obs[-2]["state"]
+        sig = {"proto": "ws", "kind": "stream_level", "sweep_state": state, "version": version}
+        case = {"family": "ws_stream", "state": state, "version": version, "end": name}
+        if heads != 1 or closes > 1:
+            ctx.violation("ws_life_one_answer", case, {"heads": heads, "closes": closes, "events": evs}, sig)
+        want = {"HANDSHAKE": ["response", "endBody", "access", "streamClosed"], "CONNECTED": ["data", "streamClosed"]}.get(st_before, ["streamClosed"])
+        if [e[0] for e in exit_evs] != want or (st_before == "HANDSHAKE" and exit_evs[0][1] != 500) or \
+                (st_before == "CONNECTED" and exit_evs[0][1] != ["close", 1011]):
+            ctx.violation("ws_exit_step", case, {"state": st_before, "exit_events": exit_evs}, sig)
+        if st_before != WS_REACH_STATE[state]:
+            ctx.violation("refused_message_changed_state", case, {"state": st_before, "steps": obs[1:]}, sig)
+    model = ctx.model(reqs)
+    if model is not None:
+        for m, (state, version, name, obs) in zip(model, metas):
+            ctx.disagreements_checked += 1
+            if m.get("ok") is None or m["ok"] != obs:
+                ctx.disagree("stream.ws(crash)", {"state": state, "version": version, "end": name}, m, obs)
 
 
 def stream_sessions() -> List[tuple]:
@@ -416,13 +805,18 @@ def stream_sessions() -> List[tuple]:
 def run(ctx: Ctx) -> None:
     cases = grid(full=ctx.thorough)
     ctx.exhaustive = True
+    check_refused(ctx, refusal_grid())
     check(ctx, cases)
+    # WebSocket: every state of the stream x every end (raise / return / every refused message of the state), both carriers
+    check_ws_sweep(ctx, ws_sweep_grid(full=ctx.thorough))
+    check_ws_stream_level(ctx)
     # stream-level correspondence for the exit step itself (model = Http.appSend … none), refused messages included: the
     # state the stream is left in by a refused message decides between the 500 and the bare stream-closed
     reqs, metas = [], []
     import asyncio
     for fam, idx, version, name, msgs in stream_sessions():
-        init = {"method": "POST", "version": version, "scheme": "http", "headers": [(b"host", b"x")]}
+        init = {"method": "POST", "version": version, "scheme": "http",
+                "headers": [(b"host", b"x")] + ([(b"te", b"trailers")] if fam in TRAILER_FAMILIES else [])}
         ops = [{"send": dict(m)} for m in msgs] + [{"send": None}]
         obs = asyncio.run(S.drive_http(init, ops))
         reqs.append(S.http_model_req(init, ops))
@@ -439,4 +833,11 @@ def run(ctx: Ctx) -> None:
 
 
 def replay(ctx: Ctx, case: dict) -> None:
-    check(ctx, [case])
+    if case.get("kind") == "proto_refused":
+        check_refused(ctx, [case])
+    elif case.get("family") == "ws_sweep":
+        check_ws_sweep(ctx, [case])
+    elif case.get("family") == "ws_stream":
+        check_ws_stream_level(ctx)
+    else:
+        check(ctx, [case])
